@@ -199,6 +199,25 @@ def work_id(unit):
         back = outcome(lambda: einx.id(cat, *parts[1]))
         if back[0] != "value" or not np.array_equal(back[1], xx):
             bad.append(({"kind": "equivariance", "relation": "inversion", "desc": split}, f"id({cat!r}) does not invert id({split!r})", {"concat": split}))
+    # two concatenations in one expression: split then re-assemble is the identity; swapping the two concatenated dimensions transposes the result
+    if firsts[0] == exprs[0]:
+        for a_, b_, c_, d_ in ((2, 3, 2, 3), (2, 2, 2, 2), (1, 2, 3, 1)):
+            X = (np.arange((a_ + b_) * (c_ + d_), dtype="int64") * 3 + 1).reshape(a_ + b_, c_ + d_)
+            parts = outcome(lambda: einx.id("(a + b) (c + d) -> a c, a d, b c, b d", X, a=a_, c=c_))
+            hist["relations"] += 1; hist["inversion"] += 1
+            if parts[0] != "value":
+                bad.append(({"kind": "equivariance", "relation": "inversion", "desc": "block split"}, f"block split failed: {parts[1]}", {"concat": "blocks"})); continue
+            back = outcome(lambda: einx.id("a c, a d, b c, b d -> (a + b) (c + d)", *parts[1]))
+            if back[0] != "value" or not np.array_equal(back[1], X):
+                bad.append(({"kind": "equivariance", "relation": "inversion", "desc": "block assemble"}, f"assembling the four blocks of a split matrix (sizes {a_},{b_},{c_},{d_}) does not give the matrix back", {"concat": "blocks"}))
+            sw = outcome(lambda: einx.id("a c, a d, b c, b d -> (c + d) (a + b)", *parts[1]))
+            hist["relations"] += 1; hist["output-permutation"] += 1
+            if sw[0] != "value" or not np.array_equal(sw[1], X.T):
+                bad.append(({"kind": "equivariance", "relation": "output-permutation", "desc": "block assemble transposed"}, f"'-> (c + d) (a + b)' is not the transpose of '-> (a + b) (c + d)' (sizes {a_},{b_},{c_},{d_})", {"concat": "blocks"}))
+            two = outcome(lambda: einx.id("a x, b x -> (a + b) x", *[einx.id("a c, a d -> a (c + d)", parts[1][0], parts[1][1]), einx.id("b c, b d -> b (c + d)", parts[1][2], parts[1][3])]))
+            hist["relations"] += 1; hist["composition"] += 1
+            if two[0] != "value" or not np.array_equal(two[1], X):
+                bad.append(({"kind": "equivariance", "relation": "composition", "desc": "block assemble in two steps"}, "concatenating in two steps differs from the single rearrangement", {"concat": "blocks"}))
     return dict(hist), bad
 
 
